@@ -981,6 +981,28 @@ func (ev *Env) call(x *ast.CallExpr) Val {
 			c = ev.seqOf(v)
 		}
 		return Val{T: it, L: []string{tid, "(" + fn + " " + c + ")"}}
+	case "rawat":
+		// rawat(buf, q): cell q (absolute index) of the array behind a mutable byte buffer; bufoff(buf) is the
+		// absolute index of buf[0]
+		v, q := arg(0), arg(1)
+		if !v.Mut {
+			specFail("rawat needs a mutable byte buffer")
+		}
+		return intV(sel(sel(ev.cur.get(ev.fx, "E|uint8|"), v.L[0]), ev.one(q, "index")))
+	case "bufoff":
+		v := arg(0)
+		if !v.Mut {
+			specFail("bufoff needs a mutable byte buffer")
+		}
+		return intV(v.L[1])
+	case "rawbyte":
+		// rawbyte(buf, j): the array cell behind buf[j] of a mutable byte buffer (what stores write and the
+		// ranged modifies clause speaks about); seq(buf)[j] is its value as a byte
+		v, j := arg(0), arg(1)
+		if !v.Mut {
+			specFail("rawbyte needs a mutable byte buffer")
+		}
+		return intV(sel(sel(ev.cur.get(ev.fx, "E|uint8|"), v.L[0]), "(+ "+v.L[1]+" "+ev.one(j, "index")+")"))
 	case "mkey":
 		// mkey(k): the key term of a map key value
 		return intV(mapKey(arg(0)))
